@@ -2,8 +2,11 @@
 //   mx S:<enc> S:<combo> L:<shape> <part> ...     index level: shape + source multi-index of every result index
 //   vw S:<enc> S:<combo> L:<shape> <part> ...     view level : shape + every element of a view over 0,1,2,...
 //   part = S:i,<v> | S:e | S:r,<a>,<b>,<c>   (a,b in {N,int}; c in {N,O,int})  — the TYPES come from the combo
-// enc: var = tuple of typed parts through index::apply_* / view::apply_slice (std::vector shape)
-//      tup = index::shape_slice / index::slice / view::slice called variadically (std::array shape and indices)
+// enc: var = tuple of typed parts through index::apply_* / view::apply_slice
+//      tup = index::shape_slice / index::slice / view::slice called variadically
+//      each generated combination fixes the TYPE of every part (run-time int / size_t, compile-time constant k_ct / ct_v<k>, Last, None),
+//      the kind of the source shape at index level (std::vector, std::array, static_vector, tuple of constants) and the kind of
+//      the source array at view level (dynamic ndarray, fixed-dim ndarray, raw C array, fixed_ndarray)
 //      dyn = std::vector<either<int,either<ellipsis_t,either<std::array<int,3>,TUPLE>>>> through the same entry points
 #include "nmtools/array/index/slice.hpp"
 #include "nmtools/array/view/slice.hpp"
@@ -35,7 +38,11 @@ inline bool sane(const std::vector<long long>& shp) {
     long long t = 1; for (auto e : shp) { if (e < 0 || e > 64) return false; t *= e; if (t > 4096) return false; } return true;
 }
 template <typename S> inline std::vector<long long> to_ll(const S& s) {
-    std::vector<long long> r; auto n = (size_t)nm::len(s); for (size_t i = 0; i < n; i++) r.push_back((long long)nm::at(s, i)); return r;
+    std::vector<long long> r;
+    if constexpr (meta::is_tuple_v<S>) { constexpr auto N = meta::len_v<S>; meta::template_for<N>([&](auto i){ r.push_back((long long)nm::at(s, i)); }); }
+    else if constexpr (meta::is_constant_index_array_v<S>) { return to_ll(meta::to_value_v<S>); }
+    else { auto n = (size_t)nm::len(s); for (size_t i = 0; i < n; i++) r.push_back((long long)nm::at(s, i)); }
+    return r;
 }
 inline std::string join_ll(const std::vector<long long>& v) { std::string s; for (size_t i = 0; i < v.size(); i++) { if (i) s += ","; s += std::to_string(v[i]); } return s; }
 
@@ -65,8 +72,13 @@ template <typename V>
 inline std::string report_view(const V& v) {
     if constexpr (meta::is_maybe_v<V>) { if (!nm::has_value(v)) return "nothing"; return report_view(*v); }
     else {
-        auto shp = to_ll(nm::shape(v));
+        const auto shape_ = nm::shape(v);
+        auto shp = to_ll(shape_);
         std::string o = "ok " + join_ll(shp) + " ;";
+        {   // the dim / size accessors must agree with the shape
+            long long d = (long long)nm::dim(v), sz = (long long)nm::size(v), prod = 1; for (auto e : shp) prod *= e;
+            if (d != (long long)shp.size() || sz != prod) o = "ok " + join_ll(shp) + " !dim=" + std::to_string(d) + ",size=" + std::to_string(sz) + " ;";
+        }
         if (!sane(shp)) return o;
         bool first = true;
         for_index(shp, [&](const std::vector<size_t>& idx){
@@ -78,32 +90,44 @@ inline std::string report_view(const V& v) {
 }
 template <size_t N> inline std::array<size_t, N> arr_n(const std::vector<size_t>& v) { std::array<size_t, N> a{}; for (size_t i = 0; i < N && i < v.size(); i++) a[i] = v[i]; return a; }
 
-// var / tup encodings of one combination; DIM = source rank, RDIM = result rank (both fixed by the combination)
-template <size_t DIM, size_t RDIM, typename... P>
-inline std::string run_static(const Case& c, const P&... p) {
+// ---- typed parts
+inline int fld(const Arg& x, int k) { return std::stoi(split(x.raw.substr(2), ',')[k]); }      // k-th field of "S:r,a,b,c" / "S:i,v"
+// ---- source shapes (index level)
+template <size_t N> inline auto sv_of(const std::vector<ll>& v) { nmtools_static_vector<size_t, N> a; a.resize(v.size()); for (size_t i = 0; i < v.size(); i++) a[i] = (size_t)v[i]; return a; }
+// ---- source arrays (view level), all holding 0,1,2,... in row-major order
+inline auto iota_dyn(const std::vector<ll>& sh) { std::vector<ll> data; size_t n = 1; for (auto e : sh) n *= e; for (size_t i = 0; i < n; i++) data.push_back(i); return make_array(sh, data); }
+template <size_t DIM> inline auto iota_fs(const std::vector<ll>& sh) {
+    using array_t = nm::array::ndarray_t<std::vector<ll>, std::array<size_t, DIM>>;
+    std::vector<ll> data; size_t n = 1; for (auto e : sh) n *= e; for (size_t i = 0; i < n; i++) data.push_back(i);
+    array_t a; a.resize(arr_n<DIM>(vec_of<size_t>(sh)));
+    std::vector<size_t> idx(sh.size(), 0);
+    for (size_t c = 0; c < n; c++) { a(arr_n<DIM>(idx)) = (ll)c; for (int d = (int)sh.size() - 1; d >= 0; d--) { if ((ll)++idx[d] < sh[d]) break; idx[d] = 0; } }
+    return a;
+}
+template <typename raw_t> inline void iota_raw(raw_t& a, size_t n) { ll* q = (ll*)&a; for (size_t i = 0; i < n; i++) q[i] = (ll)i; }
+
+// IK = 0: indices are std::vector<size_t>; 1: std::array<size_t,RDIM>
+template <int IK, size_t RDIM> inline auto mk_idx(const std::vector<size_t>& v) { if constexpr (IK == 0) return v; else return arr_n<RDIM>(v); }
+
+template <int IK, size_t RDIM, typename shape_t, typename... P>
+inline std::string run_index(const Case& c, const shape_t& shp, const P&... p) {
     std::string enc = c.args[0].raw.substr(2);
-    auto shape = vec_of<size_t>(c.args[2].list);
-    if (c.op == "mx") {
-        if (enc == "var") {
-            auto pack = nmtools_tuple<P...>{p...};
-            return report_index([&]{ return ix::apply_shape_slice(shape, pack); },
-                                [&](const std::vector<size_t>& idx){ return ix::apply_slice(idx, shape, pack); });
-        } else {
-            auto shp = arr_n<DIM>(shape);
-            return report_index([&]{ return ix::shape_slice(shp, p...); },
-                                [&](const std::vector<size_t>& idx){ return ix::slice(arr_n<RDIM>(idx), shp, p...); });
-        }
+    if (enc == "var") {
+        auto pack = nmtools_tuple<P...>{p...};
+        return report_index([&]{ return ix::apply_shape_slice(shp, pack); },
+                            [&](const std::vector<size_t>& idx){ return ix::apply_slice(mk_idx<IK,RDIM>(idx), shp, pack); });
     } else {
-        std::vector<ll> sh(c.args[2].list), data; size_t n = 1; for (auto e : sh) n *= e; for (size_t i = 0; i < n; i++) data.push_back(i);
-        auto a = make_array(sh, data);
-        try {
-            if (enc == "var") { auto pack = nmtools_tuple<P...>{p...}; return report_view(nm::view::apply_slice(a, pack)); }
-            else {
-                if constexpr (sizeof...(P) >= 2) return report_view(nm::view::slice(a, p...));
-                else return "unsupported";
-            }
-        } catch (std::out_of_range&) { return "trap out_of_range"; }   // thrown while the view computes its shape
+        return report_index([&]{ return ix::shape_slice(shp, p...); },
+                            [&](const std::vector<size_t>& idx){ return ix::slice(mk_idx<IK,RDIM>(idx), shp, p...); });
     }
+}
+template <typename array_t, typename... P>
+inline std::string run_view(const Case& c, const array_t& a, const P&... p) {
+    std::string enc = c.args[0].raw.substr(2);
+    try {
+        if (enc == "var") { auto pack = nmtools_tuple<P...>{p...}; return report_view(nm::view::apply_slice(a, pack)); }
+        else return report_view(nm::view::slice(a, p...));
+    } catch (std::out_of_range&) { return "trap out_of_range"; }   // thrown while the view computes its shape
 }
 
 // dyn encoding: one element type for the whole list
